@@ -152,7 +152,7 @@ def request(case):
     if op in R.MATHFN:
         if a['src'] != 'qube' or a['cls'] not in ('Scalar', 'Boolean'):
             return None
-        if op == 'sign' and (a['cls'] == 'Boolean' or a.get('denom')):
+        if op == 'sign' and a['cls'] == 'Boolean':
             return None
         return ['c04', 'math', op, opd_sx(a), blank_sx(case)]
     if op in MODELLED_BIN:
@@ -269,13 +269,31 @@ def gen_cases(rng, tier):
         for s in (SH2 if thorough else rng.sample(SH2, 4) + [[]]):
             for op in UN:
                 cases.append(mk({'op': op, 'a': q_operand(rng, t, s)}))
-    for t in [('Scalar', 'float', [], []), ('Scalar', 'int', [], []), ('Boolean', 'bool', [], [])]:
+    for t in [('Scalar', 'float', [], []), ('Scalar', 'int', [], []), ('Boolean', 'bool', [], []),
+              ('Scalar', 'float', [], [2]), ('Scalar', 'int', [], [2, 2])]:
         for s in (SH2 if thorough else rng.sample(SH2, 5) + [[]]):
             for op in R.MATHFN:
                 cases.append(mk({'op': op, 'a': q_operand(rng, t, s)}))
     for (sa, sb) in (TROUBLE if not thorough else TROUBLE + [(rng.choice(SH3), rng.choice(SH3)) for _ in range(300)]):
-        for tb in [('Scalar', 'float', [], []), ('Scalar', 'int', [], []), ('num', 'float'), ('nd', 'float'), ('Vector', 'float', [2], [])]:
-            a = q_operand(rng, ('Scalar', 'float', [], []), sa)
+        for tb in [('Scalar', 'float', [], []), ('Scalar', 'int', [], []), ('num', 'float'), ('nd', 'float'), ('Vector', 'float', [2], []),
+                   ('Scalar', 'float', [], [2]), ('Boolean', 'bool', [], [])]:
+            ta = ('Scalar', 'float', [], [2]) if rng.random() < 0.15 else ('Scalar', 'float', [], [])
+            a = q_operand(rng, ta, sa)
             b = operand(rng, tb, sb, None, 'arctan2')
             cases.append(mk({'op': 'arctan2', 'a': a, 'b': b}))
+    # 3b. unit rules of the math functions (angle / unitless / even exponents)
+    for op in R.MATHFN:
+        for u in [None, [0, 0, 0], [0, 0, 1], [1, 0, 0], [2, 0, 0], [1, -1, 0], [0, 2, -2]]:
+            a = q_operand(rng, ('Scalar', 'float', [], []), rng.choice([[], [2], [2, 3]]), pmask=0.0, punits=0.0)
+            a['units'] = u
+            cases.append(mk({'op': op, 'a': a}, ':units'))
+    # 3c. ** with integer bases and integer exponents of either sign, shapeless and array, every exponent form
+    for tb in [('Scalar', 'int', [], []), ('num', 'int'), ('npnum', 'int'), ('nd', 'int'), ('ma', 'int'), ('list', 'int'),
+               ('Scalar', 'float', [], []), ('num', 'float'), ('Boolean', 'bool', [], [])]:
+        for (sa, sb) in [([], []), ([3], []), ([], [3]), ([2, 3], [3]), ([3], [3]), ([2], [3])] * (3 if thorough else 1):
+            for ta in [('Scalar', 'int', [], []), ('Scalar', 'float', [], []), ('Boolean', 'bool', [], [])]:
+                a = q_operand(rng, ta, sa, pmask=0.1, punits=0.0)
+                b = operand(rng, tb, sb, None, 'pow', role='expo')
+                b['units'] = None
+                cases.append(mk({'op': 'pow', 'a': a, 'b': b}, ':ints'))
     return cases
